@@ -91,14 +91,12 @@ func (e *Exec) fileFor(op Op) (string, string, error) {
 	fileMu.Lock()
 	defer fileMu.Unlock()
 	if v, ok := fileCache[key]; ok {
-		return v[0], v[1], nil
-	}
-	root := os.Getenv("VERIF_ROOT")
-	if root == "" {
-		root = "/verif"
+		if b, err := os.ReadFile(v[1]); err == nil && string(b) == op.Text {
+			return v[0], v[1], nil
+		}
 	}
 	fileSeq++
-	d := filepath.Join(root, ".run", "histfiles", fmt.Sprint(os.Getpid()), fmt.Sprint(fileSeq))
+	d := filepath.Join(core.RunDir(), "histfiles", fmt.Sprint(os.Getpid()), fmt.Sprint(fileSeq))
 	if err := os.MkdirAll(d, 0o755); err != nil {
 		return "", "", err
 	}
@@ -297,17 +295,18 @@ func sortStrings(a []string) {
 
 // ---------------------------------------------------------------- model
 
-// Model tracks, per handle variable, the abstract set it belongs to and whether that set
-// has been executed ("frozen").
+// Model tracks, per handle variable, the abstract set it belongs to, the name of its template
+// and whether that set has been executed ("frozen").
 type Model struct {
 	setOf  []int
+	nameOf []string
 	frozen map[int]bool
 	next   int
 }
 
 // NewModel creates a model for n variables.
 func NewModel(n int) *Model {
-	m := &Model{setOf: make([]int, n), frozen: map[int]bool{}}
+	m := &Model{setOf: make([]int, n), nameOf: make([]string, n), frozen: map[int]bool{}}
 	for i := range m.setOf {
 		m.setOf[i] = -1
 	}
@@ -316,6 +315,22 @@ func NewModel(n int) *Model {
 
 // Frozen reports whether the set of variable v was executed before.
 func (m *Model) Frozen(v int) bool { return v >= 0 && v < len(m.setOf) && m.setOf[v] >= 0 && m.frozen[m.setOf[v]] }
+
+// disassociate models what New(name) does to an existing template of that name: the old
+// template is reset and becomes the only member of a new, never executed set, so every handle
+// variable that holds it moves there.
+func (m *Model) disassociate(set int, name string, except int) {
+	moved := -1
+	for v := range m.setOf {
+		if v != except && m.setOf[v] == set && m.nameOf[v] == name {
+			if moved < 0 {
+				m.next++
+				moved = m.next
+			}
+			m.setOf[v] = moved
+		}
+	}
+}
 
 // Apply updates the model with an op that was actually run (res.Ran).
 func (m *Model) Apply(op Op, res Result) {
@@ -326,18 +341,42 @@ func (m *Model) Apply(op Op, res Result) {
 	case "new":
 		m.next++
 		m.setOf[op.Dst] = m.next
-	case "tnew", "lookup":
+		m.nameOf[op.Dst] = op.Name
+	case "tnew":
+		m.disassociate(m.setOf[op.H], op.Name, -1)
 		if op.Dst >= 0 {
 			m.setOf[op.Dst] = m.setOf[op.H]
+			m.nameOf[op.Dst] = op.Name
 		}
-	case "parse", "parsefiles", "parseglob", "parsefs":
+	case "lookup":
+		if op.Dst >= 0 {
+			m.setOf[op.Dst] = m.setOf[op.H]
+			m.nameOf[op.Dst] = op.Name
+		}
+	case "parse":
 		if !res.IsErr && op.Dst >= 0 {
 			m.setOf[op.Dst] = m.setOf[op.H]
+			m.nameOf[op.Dst] = m.nameOf[op.H]
+		}
+	case "parsefiles", "parseglob", "parsefs":
+		// the file's base name becomes a template created with New (unless it is the
+		// receiver's own name) before its text is parsed; nothing happens on a frozen set
+		name := op.Name
+		if name == "" || strings.ContainsAny(name, "/\x00") {
+			name = "file.tmpl"
+		}
+		if !m.Frozen(op.H) && name != m.nameOf[op.H] {
+			m.disassociate(m.setOf[op.H], name, -1)
+		}
+		if !res.IsErr && op.Dst >= 0 {
+			m.setOf[op.Dst] = m.setOf[op.H]
+			m.nameOf[op.Dst] = m.nameOf[op.H]
 		}
 	case "clone":
 		if !res.IsErr && op.Dst >= 0 {
 			m.next++
 			m.setOf[op.Dst] = m.next
+			m.nameOf[op.Dst] = m.nameOf[op.H]
 		}
 	case "exec", "exect", "exechtml", "execthtml":
 		m.frozen[m.setOf[op.H]] = true
